@@ -261,6 +261,45 @@ func runC31(c *eng.Ctx) {
 			c.Ob("GUARD-hit", eng.FuncName(fn)+" index-entry", okArgs, pc.Pos(), "the index records the key with the offset the bytes were written at and their length")
 			c.ErrChecked("GUARD-hit", "write-error", fn, wr, "a failed write is reported")
 		}
+		// the recorded end of the data file only moves over bytes that were written: the n-th advance of fileSize is
+		// preceded by n writes (the alignment gap is written out, because a restart takes the size from the file)
+		allWr := eng.Find(fn, func(in ssa.Instruction) bool {
+			call, ok := in.(*ssa.Call)
+			return ok && call.Call.IsInvoke() && call.Call.Method.Name() == "WriteAt"
+		})
+		for i, st := range eng.Find(fn, eng.StoreToField("ChunkCacheVolume.fileSize")) {
+			n := 0
+			for _, w := range allWr {
+				if eng.Dominates(w, st) {
+					n++
+				}
+			}
+			c.Ob("GUARD-hit", fmt.Sprintf("%s size-advance#%d-backed-by-write", eng.FuncName(fn), i+1), n >= i+1, st.Pos(), fmt.Sprintf("advance #%d of the recorded file size is preceded by %d write(s) (needs %d): the file really is that long", i+1, n, i+1))
+		}
+	}
+	// resetting a cache volume drops all three parts of its state: data, index file and the index database derived
+	// from it (a kept database still maps the evicted keys to offsets that newer chunks will occupy)
+	if fn := c.NeedFunc("weed/util/chunk_cache", "(*ChunkCacheVolume).doReset"); fn != nil {
+		dropped := map[string]bool{}
+		for _, in := range eng.Find(fn, eng.PlainCallTo("os.Truncate", "os.Remove", "os.RemoveAll")) {
+			call := in.(*ssa.Call)
+			eng.Walk(call.Call.Args[0], 4, func(v ssa.Value) bool {
+				if sfx, ok := eng.ConstString(v); ok {
+					if eng.CalleeIs(call, "os.Truncate") {
+						if k, isK := eng.ConstInt(call.Call.Args[1]); !isK || k != 0 {
+							return true
+						}
+					}
+					dropped[sfx] = true
+				}
+				return true
+			})
+		}
+		for _, part := range []string{".dat", ".idx", ".ldb"} {
+			c.Ob("GUARD-hit", eng.FuncName(fn)+" drops "+part, dropped[part], fn.Pos(), "a reset empties "+part)
+		}
+		sd := eng.Find(fn, eng.PlainCallTo("chunk_cache.ChunkCacheVolume).Shutdown"))
+		c.Before("GUARD-hit", "closed-before-dropped", fn, eng.AnyOf(sd), eng.Find(fn, eng.PlainCallTo("os.Truncate", "os.RemoveAll")), "the volume is closed before its files are emptied")
 	}
 }
 
